@@ -1072,7 +1072,9 @@ class AlternatingCrossover(BallotGenerator):
             pref_for_bloc = list(pref_interval_dict[bloc].interval.values())
 
             for i in range(num_cross_ballots + num_bloc_ballots):
-                bloc_cands = list(
+                # sample into new names: the candidate lists must stay aligned with
+                # the probability vectors for the next ballot
+                bloc_ordering = list(
                     np.random.choice(
                         bloc_cands,
                         p=pref_for_bloc,
@@ -1080,7 +1082,7 @@ class AlternatingCrossover(BallotGenerator):
                         replace=False,
                     )
                 )
-                opposing_cands = list(
+                opposing_ordering = list(
                     np.random.choice(
                         opposing_cands,
                         p=pref_for_opposing,
@@ -1093,12 +1095,12 @@ class AlternatingCrossover(BallotGenerator):
                     # alternate the bloc and opposing bloc candidates to create crossover ballots
                     ranking = [
                         frozenset({cand})
-                        for pair in zip(opposing_cands, bloc_cands)
+                        for pair in zip(opposing_ordering, bloc_ordering)
                         for cand in pair
                     ]
                 else:
-                    ranking = [frozenset({c}) for c in bloc_cands] + [
-                        frozenset({c}) for c in opposing_cands
+                    ranking = [frozenset({c}) for c in bloc_ordering] + [
+                        frozenset({c}) for c in opposing_ordering
                     ]
 
                 ballot = Ballot(ranking=tuple(ranking), weight=Fraction(1, 1))
